@@ -87,5 +87,18 @@ CHECKS += [
          technique="stateful model-based property testing of the real lock client against server-side ownership history + trace oracle in the cluster simulation"),
 ]
 
+CHECKS += [
+    dict(property_id="C17", category="exploration",
+         text="The real repairOfflineMode runs on a cluster state collected by the real getClusterStateFromDB from fake servers whose zone layout, separator, percentage, lags around both thresholds, unknown lag, permanent breakage, resetup-status ages, master mode and recovery mark are generated, over 1-3 passes with time advancing across the enable interval; every offline_mode statement that reaches a server is judged in arrival order against the statement's rules (validity predicate: mysync's map iteration order decides which replica goes first, so there is no single expected answer).",
+         design_ref="DESIGN.md section 4, C17",
+         note="Trusted: fake MySQL's Seconds_Behind model (NULL when the SQL thread is stopped or the IO thread is stopped with an empty relay log). The check judges statements that were sent; it does not demand that a permitted action is taken (the statement says 'only when').",
+         technique="property-based testing of the real repair pass over fake servers with a per-statement validity oracle"),
+    dict(property_id="C18", category="exploration",
+         text="The real repairReadOnlyOnMaster is called with generated health records (usages on a grid around both thresholds incl. equality and >total, missing reports, semi-sync/running flags), wait counts, master modes and both settings of the super-writable switch over 1-4 passes against a fake master; the statements that arrive and the low_space key are compared with the action table written from the statement.",
+         design_ref="DESIGN.md section 4, C18",
+         note="Trusted: the action table. A missing master disk report is treated as unspecified (only 'no crash' is required there).",
+         technique="property-based testing of the real decision function over a fake server with a decision-table oracle"),
+]
+
 _claimed = {c["property_id"] for c in CHECKS}
 NOT_APPLICABLE = [dict(property_id=p, reason="check not built yet in this revision (framework under construction; see DESIGN.md build order)") for p in ALL if p not in _claimed]
